@@ -1,2 +1,168 @@
+import NmVerif.Static
+import NmVerif.Lemmas.Static
+/-
+  C11 — statically inferred shape, size and bounds agree with every run-time instance.
+
+  `SInfo` (NmVerif.Static) is the compile-time knowledge the library attaches to an array / view TYPE; `i.γ s` says that
+  the run-time shape `s` is an instance of it.  For every modelled view function the library's metafunctions compute
+  the knowledge of the result type from the knowledge of the operand types (`transferX`).  The theorems below say:
+
+    * `traits_sound`        whatever the five traits report about a type is true of every instance:
+                            fixed shape / dim / size are exact, bounded dim / size are upper bounds;
+    * `X_static_sound`      each transfer function is sound: if the operand shapes are instances of the operand
+                            knowledge and the operation (NumPy reference shape function) yields `t`, then `t` is an
+                            instance of the inferred knowledge — for ALL shapes, ranks and arguments;
+    * `result_buffer_fits`  consequently a buffer of `bounded_size` (or `fixed_size`) elements holds the whole result;
+    * `…_counterexample`    the two places where the real metafunctions are NOT sound (known findings): the theorem
+                            domain excludes exactly those kind combinations.
+-/
 namespace NmVerif.Props.C11
+open NmVerif NmVerif.Static
+
+/-! ## the five traits -/
+
+/-- What `meta::fixed_shape_v / fixed_dim_v / fixed_size_v / bounded_dim_v / bounded_size_v` report is true of every
+    run-time instance of the type. -/
+theorem traits_sound {i : SInfo} {s : Shape} (h : i.γ s) :
+    (∀ l, i.fixedShape = some l → s = l) ∧
+    (∀ k, i.fixedDim = some k → s.length = k) ∧
+    (∀ k, i.boundedDim = some k → s.length ≤ k) ∧
+    (∀ n, i.fixedSize = some n → prod s = n) ∧
+    (∀ n, i.boundedSize = some n → prod s ≤ n) := by
+  obtain ⟨hs, hz⟩ := h
+  have hlen : ∀ k, i.shape.len? = some k → s.length = k := by
+    intro k hk
+    cases hsh : i.shape with
+    | const l => simp [hsh, ShapeK.len?] at hk; simp only [hsh, ShapeK.γ] at hs; subst hs; exact hk
+    | clipped b => simp [hsh, ShapeK.len?] at hk; simp only [hsh, ShapeK.γ] at hs; rw [hs.length_eq]; exact hk
+    | fixedDim n => simp [hsh, ShapeK.len?] at hk; simp only [hsh, ShapeK.γ] at hs; omega
+    | boundedDim n => simp [hsh, ShapeK.len?] at hk
+    | dyn => simp [hsh, ShapeK.len?] at hk
+  refine ⟨?_, hlen, ?_, ?_, ?_⟩
+  · intro l hl
+    cases hsh : i.shape <;> simp [SInfo.fixedShape, hsh] at hl
+    simp only [hsh, ShapeK.γ] at hs; subst hl; exact hs
+  · intro k hk
+    cases hsh : i.shape with
+    | boundedDim n => simp [SInfo.boundedDim, hsh] at hk; simp only [hsh, ShapeK.γ] at hs; omega
+    | const l => have := hlen k (by simpa [SInfo.boundedDim, hsh] using hk); omega
+    | clipped b => have := hlen k (by simpa [SInfo.boundedDim, hsh] using hk); omega
+    | fixedDim n => have := hlen k (by simpa [SInfo.boundedDim, hsh] using hk); omega
+    | dyn => simp [SInfo.boundedDim, hsh, ShapeK.len?] at hk
+  · intro n hn
+    cases hsz : i.size <;> simp [SInfo.fixedSize, hsz] at hn
+    simp only [hsz, SizeK.γ] at hz; omega
+  · intro n hn
+    cases hsz : i.size <;> simp [SInfo.boundedSize, hsz] at hn
+    · simp only [hsz, SizeK.γ] at hz; omega
+    · simp only [hsz, SizeK.γ] at hz; omega
+
+example : (⟨.clipped [2, 3], .atMost 6⟩ : SInfo).γ [1, 3] := by decide
+example : (⟨.clipped [2, 3], .atMost 6⟩ : SInfo).boundedSize = some 6 := rfl
+
+/-- a result buffer sized from the static knowledge (bounded_size, which is fixed_size when that exists) has room for
+    every run-time instance: nothing is clipped. -/
+theorem result_buffer_fits {i : SInfo} {s : Shape} {cap : Nat} (h : i.γ s) (hc : i.boundedSize = some cap) :
+    prod s ≤ cap := (traits_sound h).2.2.2.2 cap hc
+
+/-- the operand knowledge a view reads through `shape<true>` / `size<true>` is sound -/
+theorem seen_static_sound {i : SInfo} {s : Shape} (h : i.γ s) : i.seen.γ s := seen_sound h
+
+/-! ## per-operation soundness -/
+
+/-- admitted run-time values of a reshape target (may contain one `-1` when its values are run-time) -/
+def targetOk : ArrK → List Int → Prop
+  | .ct c, v => v = c.map Int.ofNat
+  | .cl m, v => (∀ x ∈ v, 0 ≤ x) ∧ LeAll (v.map Int.toNat) m
+  | .rt n, v => v.length = n
+  | .rtv, _ => True
+
+theorem reshape_static_sound {i o : SInfo} {s t : Shape} {k : ArrK} {targ : List Int}
+    (h : i.γ s) (hk : targetOk k targ) (hr : refReshape targ s = some t) (ho : transferReshape k i = some o) : o.γ t := by
+  obtain ⟨hlen, hprod, hnn⟩ := refReshape_spec hr
+  simp only [transferReshape, Option.some.injEq] at ho
+  subst ho
+  have hz : i.seen.size.γ (prod t) := by rw [hprod]; exact (seen_sound h).2
+  refine indexingInfo_sound ?_ hz
+  cases k with
+  | ct c =>
+    simp only [targetOk] at hk
+    have : ∀ x ∈ targ, 0 ≤ x := by subst hk; intro x hx; simp at hx; obtain ⟨a, _, rfl⟩ := hx; omega
+    rw [hnn this, hk]
+    simp [ArrK.toShapeK, ShapeK.γ, Function.comp_def]
+  | cl m =>
+    obtain ⟨h1, h2⟩ := hk
+    rw [hnn h1]; exact h2
+  | rt n => simp only [targetOk] at hk; simpa [ArrK.toShapeK, ShapeK.γ, hlen] using hk
+  | rtv => trivial
+
+example : refReshape [-1, 2] [2, 3] = some [3, 2] := by decide
+example : transferReshape (.rt 2) ⟨.clipped [2, 3], .any⟩ = some ⟨.fixedDim 2, .atMost 6⟩ := by decide
+
+theorem flatten_static_sound {i o : SInfo} {s : Shape} (h : i.γ s) (ho : transferFlatten i = some o) : o.γ (refFlatten s) := by
+  have hs := seen_sound h
+  have hz := hs.2
+  have hp : prod (refFlatten s) = prod s := by simp [refFlatten, prod]
+  unfold transferFlatten at ho
+  cases hsz : i.seen.size with
+  | known n =>
+    simp only [hsz, transferReshape, Option.some.injEq] at ho; subst ho
+    simp only [hsz, SizeK.γ] at hz
+    exact indexingInfo_sound (by simp [ArrK.toShapeK, ShapeK.γ, refFlatten, hz]) (by rw [hp]; exact hz)
+  | atMost n =>
+    simp only [hsz, transferReshape, Option.some.injEq] at ho; subst ho
+    simp only [hsz, SizeK.γ] at hz
+    exact indexingInfo_sound (by simp [ArrK.toShapeK, ShapeK.γ, refFlatten, LeAll, hz]) (by rw [hp]; exact hz)
+  | any =>
+    simp only [hsz, transferReshape, Option.some.injEq] at ho; subst ho
+    exact indexingInfo_sound (by simp [ArrK.toShapeK, ShapeK.γ, refFlatten]) trivial
+
+example : transferFlatten ⟨.fixedDim 2, .atMost 6⟩ = some ⟨.clipped [6], .atMost 6⟩ := by decide
+
+theorem broadcast_to_static_sound {i o : SInfo} {s t : Shape} {k : ArrK} {targ : List Nat}
+    (hk : k.γ targ) (hr : refBroadcastTo targ s = some t) (ho : transferBroadcastTo k i = some o) : o.γ t := by
+  have ht : t = targ := by
+    unfold refBroadcastTo at hr
+    split at hr <;> simp at hr
+    exact hr.symm
+  subst ht
+  simp only [transferBroadcastTo, Option.some.injEq] at ho; subst ho
+  exact indexingInfo_sound (arrK_toShapeK_sound hk) (productK_sound (arrK_toShapeK_sound hk))
+
+example : refBroadcastTo [2, 2, 3] [1, 3] = some [2, 2, 3] := by decide
+
+/-- squeeze, for operands whose shape knowledge is not of clipped kind (for clipped operands the real metafunction
+    squeezes the maxima: `squeeze_clipped_counterexample`) -/
+theorem squeeze_static_sound {i o : SInfo} {s : Shape} (h : i.γ s) (hnc : ∀ b, i.shape ≠ .clipped b)
+    (ho : transferSqueeze i = some o) : o.γ (refSqueeze s) := by
+  have hs := seen_sound h
+  have hp : prod (refSqueeze s) = prod s := prod_filter_ne_one s
+  have hl : (refSqueeze s).length ≤ s.length := List.length_filter_le _ _
+  simp only [transferSqueeze, reshapeByKind, Option.some.injEq] at ho; subst ho
+  refine indexingInfo_sound ?_ (by rw [hp]; exact hs.2)
+  have hsh := hs.1
+  rw [seen_shape] at hsh ⊢
+  cases hk : i.shape with
+  | const l => simp only [hk, ShapeK.γ] at hsh; subst hsh; simp [ShapeK.γ]
+  | clipped b => exact absurd hk (hnc b)
+  | fixedDim k =>
+    simp only [hk, ShapeK.γ] at hsh
+    by_cases hk0 : k > 0 <;> simp [hk0, ShapeK.γ]; omega
+  | boundedDim k =>
+    simp only [hk, ShapeK.γ] at hsh
+    by_cases hk0 : k > 0 <;> simp [hk0, ShapeK.γ]; omega
+  | dyn => simp [ShapeK.γ]
+
+/-- known finding C11.squeeze-clipped: the clipped type admits `[1,1,2]`, the squeezed instance `[2]` is not an instance
+    of the inferred knowledge (rank 2, bounds [2,3]) -/
+theorem squeeze_clipped_counterexample :
+    (⟨.clipped [2, 1, 3], .atMost 6⟩ : SInfo).γ [1, 1, 2] ∧
+    ∃ o, transferSqueeze ⟨.clipped [2, 1, 3], .atMost 6⟩ = some o ∧ ¬ o.γ (refSqueeze [1, 1, 2]) := by
+  refine ⟨by decide, ⟨.clipped [2, 3], .atMost 6⟩, by decide, by decide⟩
+
+theorem ufunc1_static_sound {i o : SInfo} {s : Shape} (h : i.γ s) (ho : transferUfunc1 i = some o) : o.γ s := by
+  have hs := seen_sound h
+  simp only [transferUfunc1, Option.some.injEq] at ho; subst ho
+  exact ufuncInfo_sound hs.1 hs.2
+
 end NmVerif.Props.C11
